@@ -33,13 +33,14 @@ CHECKS = {
             'against a 40-line naive model, over chunkings, window sizes changing per call and TIMEOUT-trimmed buffers.',
             'The naive model is the specification (leftmost in the sliced last-W text, lowest index on ties). Scripted transport.',
             'DESIGN.md 3/C03'),
-    'C04': ('E1 scripted transport + naive model (part A)',
+    'C04': ('E1 scripted transport + naive model (part A); E2/E3 real transports (part B)',
             'Hypothesis-generated histories with EOF/TIMEOUT markers at generated list positions; outcome oracle '
             '(index or exact exception class, before = all pending, after = class, sticky EOF)',
             'Generated search over marker positions x entry points x histories x timeout values incl. 0; every '
             'EOF/TIMEOUT outcome is checked for index/exact class/before/after/cleared buffer and a pending match '
             'must win; three extra calls after the first EOF.',
-            'Part A runs on the scripted transport; diagnostics are built by the real spawn.__str__.',
+            'Part A runs on the scripted transport; part B on real pty/fd/socket objects (E2) and PopenSpawn children (E3); '
+            'diagnostics are built by the real __str__ of each class.',
             'DESIGN.md 3/C04'),
     'C20': ('E1 scripted transport + naive model per pattern form',
             'Hypothesis-generated pattern text x flags x stream evaluated under every accepted pattern form and '
@@ -68,6 +69,24 @@ CHECKS = {
             'Inputs on which CPython\'s own incremental decoders are chunk-dependent are discarded (counted). pty children '
             'only with ASCII-compatible codecs (spawn encodes argv with the instance encoding).',
             'DESIGN.md 3/C07'),
+    'C05': ('E2 kernel objects + interposed syscalls + virtual clock; E3 real children',
+            'Hypothesis-generated arrival schedules x timeout values x entry points x transports on real pty/pipe/'
+            'socket objects with interposed select/poll/read/waitpid/recv and a virtual clock; exact deadline '
+            'accounting oracle (a)-(h); wall-clock confirmation with one-sided margins on real pty/Popen children',
+            'The harness owns the schedule and the clock: a 1 us overrun, an early TIMEOUT, a per-read instead of an '
+            'overall deadline, a wait longer than the remaining time and a call that would block forever are all '
+            'visible deterministically. One open known finding (hang-up without exit) is probed, not suppressed.',
+            'Trusts the virtual-time model of blocking waits; reads/readiness/EIO are the real kernel. EINTR is '
+            'injected as InterruptedError from select/poll. PopenSpawn only in the wall-clock tier.',
+            'DESIGN.md 3/C05'),
+    'C06': ('E2 kernel objects + interposed syscalls; E3 real children',
+            'Hypothesis-generated peer scripts (writes up to 300 KB, close/exit in either order) executed between the '
+            'reader\'s system calls on real kernel objects; byte-exact content oracle, size bound, EOF placement, '
+            'socket-timeout restoration; real pty/Popen children with randomised sleeps',
+            'Places peer actions in the microsecond windows between select(0), os.read, waitpid and the timed wait of '
+            'one read_nonblocking call, which a real schedule never hits by chance, and compares every byte.',
+            'Trusts our model of when waitpid reports the child dead. PopenSpawn thread interleavings perturbed, not enumerated.',
+            'DESIGN.md 3/C06'),
     'C18': ('Hypothesis token grammar + exhaustive sweep + atheris',
             'Hypothesis-generated terminal token sequences with generated cut points; totality/shape/cursor/no-residue '
             'oracles and a chunking metamorphic relation; thorough adds an exhaustive <=4-token sweep on tiny screens and '
@@ -134,8 +153,12 @@ def main():
              'serves_properties': ['C01', 'C02', 'C03', 'C04', 'C20'],
              'kind_free_text': 'scripted transport (SpawnBase subclass playing a generated read script, virtual '
                                'clock) + naive reference model of the expect family + Hypothesis generators'},
+            {'name': 'E2', 'path': 'vf/engines/simkernel.py', 'serves_properties': ['C04', 'C05', 'C06'],
+             'kind_free_text': 'real pty/pipe/socketpair objects; select/poll/os.read/os.waitpid/os.kill/time/socket.recv '
+                               'interposed from the harness by replacing module attributes; virtual clock; peer actions '
+                               'fired between reader syscalls; detection of waits that can never end'},
             {'name': 'E3', 'path': 'vf/engines/peers.py, peers/rawpeer.py, peers/probe.py',
-             'serves_properties': ['C07', 'C13'],
+             'serves_properties': ['C04', 'C05', 'C06', 'C07', 'C13'],
              'kind_free_text': 'real peers: scripted pty/Popen children recording what they receive, pre-filled '
                                'pipes/socketpairs, recording log files'},
             {'name': 'E4', 'path': 'vf/engines/screenmodel.py', 'serves_properties': ['C19'],
